@@ -173,6 +173,20 @@ def evaluate(case, acc, seed_for_forms):
             finally:
                 os.chdir(cwd)
             acc.count("diagrams_named_relative_to_the_working_directory")
+        elif rnd.random() < 0.25:
+            # a half-configured rule (diagram given, base module not yet) is COPIED - copy.copy, copy.deepcopy or a pickle
+            # round trip - and copy and original are finished for different sub-systems: each is its own rule
+            import copy as _copy
+            import pickle as _pickle
+
+            how = rnd.choice(["copy", "deepcopy", "pickle"])
+            proto = r1.from_file(Path(short))
+            twin = _copy.copy(proto) if how == "copy" else _copy.deepcopy(proto) if how == "deepcopy" else _pickle.loads(_pickle.dumps(proto))
+            mine, other = (twin, proto) if rnd.random() < 0.5 else (proto, twin)
+            mine.with_base_module(BASE)
+            other.with_base_module("r.zz_another_sub_system")
+            o1, m1 = run(mine, ev)
+            acc.count("diagram_rules_finished_on_a_copy_of_a_half_configured_rule:" + how)
         else:
             o1, m1 = run(r1.from_file(Path(short)).with_base_module(BASE), ev)
         o2, m2 = run(DiagramRule(should_only_rule=mode).from_file(Path(fq)).base_module_included_in_module_names(), ev)
@@ -316,6 +330,9 @@ def floors(acc, tier):
             why.append(f"{c}: only {acc.counters[c]}")
     if acc.counters["architectures_with_an_external_module_named_like_a_component"] < 50:
         why.append(f"only {acc.counters['architectures_with_an_external_module_named_like_a_component']} architectures with an external module named like a component")
+    for how in ("copy", "deepcopy", "pickle"):
+        if acc.counters["diagram_rules_finished_on_a_copy_of_a_half_configured_rule:" + how] < 20:
+            why.append(f"too few diagram rules finished on a {how} of a half-configured rule")
     if acc.counters["diagram_rules_configured_interleaved"] < 50:
         why.append(f"only {acc.counters['diagram_rules_configured_interleaved']} diagram rules configured while another one was being configured")
     if acc.counters["c07_judged"] < 1000:
